@@ -8,9 +8,9 @@ head = "## 12. Seeded changes (independent sub-agents) and which checks catch th
 i = s.index(head)
 table = subprocess.run([sys.executable, os.path.join(HERE, "tools", "seed_table.py")], capture_output=True, text=True).stdout
 text = head + """
-Nine rounds of 19 fresh sub-agents each (171 changes). Every agent got only the text of one property and its own scratch
-git worktree of /repo under /tmp (nothing from /verif; rounds 2-9 were additionally told which ideas had already
-been used for that property, so that the nine changes per property differ in mechanism (rounds 5-9 were also asked to stay out of the files and functions the earlier ones had touched)). Each wrote one realistic
+Ten rounds of 19 fresh sub-agents each (190 changes). Every agent got only the text of one property and its own scratch
+git worktree of /repo under /tmp (nothing from /verif; rounds 2-10 were additionally told which ideas had already
+been used for that property, so that the ten changes per property differ in mechanism (rounds 5-10 were also asked to stay out of the files and functions the earlier ones had touched)). Each wrote one realistic
 regression (a tidy-up, an off-by-one, a moved statement, a swapped argument, ...) that still passes the 88 baseline
 tests, plus a stand-alone demonstration. Each change was confirmed by `tools/seed_collect.sh` in a *fresh* scratch
 worktree (demo exits 0 on HEAD, 1 with the patch; baseline pytest command passes with the patch) and then evaluated by
@@ -18,9 +18,9 @@ worktree (demo exits 0 on HEAD, 1 with the patch; baseline pytest command passes
 live in `seeded/<id>/` (`patch.diff`, `demo.py`, `notes.md`, `confirm.json`, `eval.json`, `meta.json`); none was ever
 committed to /repo, all worktrees were removed.
 
-**Result: all 171 are reported by their own property's quick check as `VIOLATION` with a concrete failing input** (not
+**Result: all 190 are reported by their own property's quick check as `VIOLATION` with a concrete failing input** (not
 merely as a broken correspondence). That was not so at first: 9 of the first 19, 14 of the second 19, 13 of the
-third 19, 8 of the fourth 19, 11 of the fifth 19, 14 of the sixth 19, 9 of the seventh 19, 11 of the eighth 19 and 11 of the ninth 19 were initially missed or seen only as a broken correspondence. Each miss was a hole in a *generator* or a
+third 19, 8 of the fourth 19, 11 of the fifth 19, 14 of the sixth 19, 9 of the seventh 19, 11 of the eighth 19, 11 of the ninth 19 and 11 of the tenth 19 were initially missed or seen only as a broken correspondence. Each miss was a hole in a *generator* or a
 missing *clause*, never a reason to weaken a check; what was added (all of it also runs on the unchanged tree):
 
 * round 1: coarse search grids and call provenance (C02), budget stress + reserve correspondence (C03), runs started at
@@ -112,6 +112,15 @@ missing *clause*, never a reason to weaken a check; what was added (all of it al
   NumPy's print options (a caller who changes them between two seeded runs gets different runs; pybads itself never changes them),
   `OptimizeResult.update()` accepts unknown keys, `np.ma.masked` / `complex(1, 0)` are accepted as values, a multi-row `x0` is written to
   before a ValueError, passing another instance's `Options` object shares its `useroptions` set.
+
+* round 10: what counts for the ES ranking is the parameter the USER configured, whatever reaches the acquisition function (C15), a
+  (value, SD) pair from a target whose noise is not specified (C10), `stobads=True` without declared noise (C20), start points just beyond
+  the 0.1% margin of a log-scaled variable + "the run starts on a point of the initial search grid" (C08), a constraint that excludes a face
+  + the x of the returned `OptimizeResult` judged in addition to the optimizer's own final point (C02, C01 - a tidied-up copy is what the
+  caller gets), every boolean option toggled with the optimum beyond a face (C01), `complete_poll` with the optimum in a corner + "one
+  direction basis per poll step" (C14: a second basis started a new group in my per-poll analysis), a multi-start loop over the same bound
+  vectors (C09), the mesh-tolerance stop judged against the USER's `tol_mesh` instead of the value the run derived from it (C13), int8 /
+  int16 cost tables spanning more than half the type's range (C04), double refits under the slice sampler (C16).
 
 Two of those generator extensions exposed genuine defects on the pinned tree (section 11: `noise_size` with specified
 noise; three boolean advanced options), which were repaired by `fix:` commits; one more (`fit_lik=False`) is a known finding.
